@@ -59,7 +59,8 @@ PROPS = {
     "C06": a("the final build of each history executed from identical state under several schedules/queue kinds and compared with "
              "the canonical synchronous execution; protocol monitor on every callback; hang detection by scheduler quiescence; "
              "same workloads under ThreadSanitizer with the scheduler uninstrumented; in a share of database-backed plans one BuildDB call "
-             "of the last build (setRuleResult / lookupRuleResult / buildStarted / setCurrentIteration) fails through a forwarding wrapper, "
+             "of the last build (setRuleResult / lookupRuleResult / buildStarted / setCurrentIteration) fails through a forwarding wrapper, or one write / sync "
+             "of the simulated disk under SQLite returns EIO / disk-full, "
              "after which only 'the build comes back and leaves no task or thread behind' is judged. Non-trivial: >=2 tasks computing concurrently.",
              tsan={"quick": 25, "thorough": 300}),
     "C07": a("programs with back edges (static, dynamic, order-only, single-use) and reprogramming that leaves stale recorded edges; every "
